@@ -205,6 +205,7 @@ def job(args):
     name, fam, lo, hi, quick, scratch, subst = args
     sub = dict(subst); sub['Family = "scale1d"'] = 'Family = "%s"' % fam
     sub["MinRows = 1"] = "MinRows = %d" % lo; sub["MaxRows = 3"] = "MaxRows = %d" % hi
+    if not quick and hi <= 3 and fam.startswith("scale"): sub["NumsS = {0, 1, 3}"] = "NumsS <- NumsWithNegative"    # a negative number where it is affordable
     cfg = tracecheck._cfg("ScaleImpute.cfg", sub, scratch, "si_%s.cfg" % name)
     r = tlc.run("ScaleImpute", cfg, os.path.join(scratch, name), workers=3, timeout=1500, heap="6g")
     if r.violations:
